@@ -3,6 +3,7 @@
     r1_* / s1_* are the Gallina translations regenerated from /repo on every run. *)
 From Coq Require Import Reals Floats Bool.
 From Geo Require Import Base.GoPrim Base.F64 Gen.R1 Gen.S1 Proofs.C19_R1.
+From Geo Require Import Gen.R2 Gen.S2Rect Proofs.C19_R2 Proofs.C19_S2Rect.
 From Geo Require Import Proofs.C19_S1 Proofs.C19_S1_Union Proofs.C19_S1_Inter Proofs.C19_S1_Rel Proofs.C19_S1_Ops.
 Local Open Scope R_scope.
 
@@ -163,3 +164,146 @@ Proof.
         (conj s1_empty_valid s1_full_valid))))))).
 Qed.
 Print Assumptions s1_results_valid.
+
+(** r2.Rect ----------------------------------------------------------------
+    points are pairs of non-NaN floats; [mem_r2 r px py] is component-wise r1 membership;
+    [valid_r2] is non-NaN endpoints plus the code's IsValid (X empty iff Y empty). *)
+Theorem r2_contains_point_is_membership : forall r p, wf_r2 r ->
+  nonnan (r2_Point_X p) -> nonnan (r2_Point_Y p) ->
+  (r2_Rect_ContainsPoint r p = true <-> mem_r2 r (r2_Point_X p) (r2_Point_Y p)).
+Proof. exact r2_contains_point_mem. Qed.
+Print Assumptions r2_contains_point_is_membership.
+
+Theorem r2_union_contains_both : forall a b px py, wf_r2 a -> wf_r2 b -> nonnan px -> nonnan py ->
+  mem_r2 a px py \/ mem_r2 b px py -> mem_r2 (r2_Rect_Union a b) px py.
+Proof. exact r2_union_sound. Qed.
+Print Assumptions r2_union_contains_both.
+
+Theorem r2_intersection_exact : forall a b px py, wf_r2 a -> wf_r2 b -> nonnan px -> nonnan py ->
+  (mem_r2 (r2_Rect_Intersection a b) px py <-> mem_r2 a px py /\ mem_r2 b px py).
+Proof. exact C19_R2.r2_intersection_exact. Qed.
+Print Assumptions r2_intersection_exact.
+
+Theorem r2_contains_iff_subset : forall a b, wf_r2 a -> valid_r2 b ->
+  (r2_Rect_Contains a b = true <->
+   forall px py, nonnan px -> nonnan py -> mem_r2 b px py -> mem_r2 a px py).
+Proof. exact r2_contains_spec. Qed.
+Print Assumptions r2_contains_iff_subset.
+
+Theorem r2_intersects_iff_common_point : forall a b, wf_r2 a -> wf_r2 b ->
+  (r2_Rect_Intersects a b = true <->
+   exists px py, nonnan px /\ nonnan py /\ mem_r2 a px py /\ mem_r2 b px py).
+Proof. exact r2_intersects_spec. Qed.
+Print Assumptions r2_intersects_iff_common_point.
+
+Theorem r2_addpoint_keeps_everything : forall r p qx qy, wf_r2 r ->
+  nonnan (r2_Point_X p) -> nonnan (r2_Point_Y p) -> nonnan qx -> nonnan qy ->
+  mem_r2 r qx qy \/ (rank qx = rank (r2_Point_X p) /\ rank qy = rank (r2_Point_Y p)) ->
+  mem_r2 (r2_Rect_AddPoint r p) qx qy.
+Proof. exact r2_addpoint_sound. Qed.
+Print Assumptions r2_addpoint_keeps_everything.
+
+Theorem r2_clamp_lands_inside : forall r p, wf_r2 r -> valid_r2 r -> r2_Rect_IsEmpty r = false ->
+  nonnan (r2_Point_X p) -> nonnan (r2_Point_Y p) ->
+  let q := r2_Rect_ClampPoint r p in
+  nonnan (r2_Point_X q) /\ nonnan (r2_Point_Y q) /\ mem_r2 r (r2_Point_X q) (r2_Point_Y q).
+Proof. exact r2_clamp_inside. Qed.
+Print Assumptions r2_clamp_lands_inside.
+
+Theorem r2_empty_iff_no_member : forall r, valid_r2 r ->
+  (r2_Rect_IsEmpty r = true <-> forall px py, nonnan px -> nonnan py -> ~ mem_r2 r px py).
+Proof. exact r2_isempty_spec. Qed.
+Print Assumptions r2_empty_iff_no_member.
+
+Theorem r2_results_valid : forall a b p, valid_r2 a -> valid_r2 b ->
+  nonnan (r2_Point_X p) -> nonnan (r2_Point_Y p) ->
+  valid_r2 (r2_Rect_Union a b) /\ valid_r2 (r2_Rect_AddRect a b) /\
+  valid_r2 (r2_Rect_Intersection a b) /\ valid_r2 (r2_Rect_AddPoint a p) /\ valid_r2 r2_EmptyRect.
+Proof.
+  intros a b p Ha Hb Nx Ny.
+  exact (conj (r2_union_valid a b Ha Hb) (conj (r2_union_valid a b Ha Hb)
+        (conj (r2_intersection_valid a b (proj1 Ha) (proj1 Hb))
+        (conj (r2_addpoint_valid a p (proj1 Ha) Nx Ny) r2_empty_valid)))).
+Qed.
+Print Assumptions r2_results_valid.
+
+(** s2.Rect ----------------------------------------------------------------
+    points are (lat, x): lat a float with |lat| <= pi/2 ([vlat]), x a real point of the longitude
+    circle; [valid_s2rect] is equal to the code's IsValid. *)
+Theorem s2rect_isvalid_is_validity : forall r, s2_Rect_IsValid r = true <-> valid_s2rect r.
+Proof. exact s2rect_valid_iff. Qed.
+Print Assumptions s2rect_isvalid_is_validity.
+
+Theorem s2rect_contains_latlng_is_membership : forall r ll, valid_s2rect r ->
+  (s2_Rect_ContainsLatLng r ll = true <->
+   valid_ll ll /\ mem_s2rect r (s2_LatLng_Lat ll) (rank (s2_LatLng_Lng ll))).
+Proof. exact s2rect_contains_latlng. Qed.
+Print Assumptions s2rect_contains_latlng_is_membership.
+
+Theorem s2rect_union_contains_both : forall a b lat x, valid_s2rect a -> valid_s2rect b ->
+  nonnan lat -> inrange x ->
+  mem_s2rect a lat x \/ mem_s2rect b lat x -> mem_s2rect (s2_Rect_Union a b) lat x.
+Proof. exact s2rect_union_sound. Qed.
+Print Assumptions s2rect_union_contains_both.
+
+Theorem s2rect_intersection_contains_common : forall a b lat x, valid_s2rect a -> valid_s2rect b ->
+  nonnan lat -> inrange x ->
+  mem_s2rect a lat x -> mem_s2rect b lat x -> mem_s2rect (s2_Rect_Intersection a b) lat x.
+Proof. exact s2rect_intersection_complete. Qed.
+Print Assumptions s2rect_intersection_contains_common.
+
+Theorem s2rect_intersection_nothing_outside_both : forall a b lat x, valid_s2rect a -> valid_s2rect b ->
+  nonnan lat -> inrange x ->
+  mem_s2rect (s2_Rect_Intersection a b) lat x ->
+  (mem_s2rect a lat x \/ mem_s2rect b lat x) /\ (mem1 (s2_Rect_Lat a) lat /\ mem1 (s2_Rect_Lat b) lat).
+Proof.
+  intros a b lat x Ha Hb N Hx H.
+  exact (conj (s2rect_intersection_within a b lat x Ha Hb N Hx H)
+              (s2rect_intersection_lat_exact a b lat x Ha Hb N Hx H)).
+Qed.
+Print Assumptions s2rect_intersection_nothing_outside_both.
+
+Theorem s2rect_contains_iff_subset : forall a b, valid_s2rect a -> valid_s2rect b ->
+  (s2_Rect_Contains a b = true <->
+   forall lat x, nonnan lat -> inrange x -> mem_s2rect b lat x -> mem_s2rect a lat x).
+Proof. exact s2rect_contains_spec. Qed.
+Print Assumptions s2rect_contains_iff_subset.
+
+Theorem s2rect_intersects_iff_common_point : forall a b, valid_s2rect a -> valid_s2rect b ->
+  (s2_Rect_Intersects a b = true <->
+   exists lat x, nonnan lat /\ inrange x /\ mem_s2rect a lat x /\ mem_s2rect b lat x).
+Proof. exact s2rect_intersects_spec. Qed.
+Print Assumptions s2rect_intersects_iff_common_point.
+
+Theorem s2rect_addpoint_keeps_everything : forall r ll lat x, valid_s2rect r -> valid_ll ll ->
+  nonnan lat -> inrange x ->
+  mem_s2rect r lat x \/ (rank lat = rank (s2_LatLng_Lat ll) /\ normR x = normR (rank (s2_LatLng_Lng ll))) ->
+  mem_s2rect (s2_Rect_AddPoint r ll) lat x.
+Proof. exact s2rect_addpoint_sound. Qed.
+Print Assumptions s2rect_addpoint_keeps_everything.
+
+Theorem s2rect_polar_closure_keeps_everything : forall r lat x, valid_s2rect r -> inrange x ->
+  mem_s2rect r lat x -> mem_s2rect (s2_Rect_PolarClosure r) lat x.
+Proof. exact s2rect_polar_closure_sound. Qed.
+Print Assumptions s2rect_polar_closure_keeps_everything.
+
+Theorem s2rect_empty_iff_no_member : forall r, valid_s2rect r ->
+  (s2_Rect_IsEmpty r = true <-> forall lat x, vlat lat -> inrange x -> ~ mem_s2rect r lat x).
+Proof. exact s2rect_isempty_spec. Qed.
+Print Assumptions s2rect_empty_iff_no_member.
+
+Theorem s2rect_full_contains_everything : forall lat x, vlat lat -> inrange x -> mem_s2rect s2_FullRect lat x.
+Proof. exact s2rect_full_every_member. Qed.
+Print Assumptions s2rect_full_contains_everything.
+
+Theorem s2rect_results_valid : forall a b ll, valid_s2rect a -> valid_s2rect b ->
+  valid_s2rect (s2_Rect_Union a b) /\ valid_s2rect (s2_Rect_Intersection a b) /\
+  valid_s2rect (s2_Rect_AddPoint a ll) /\ valid_s2rect (s2_Rect_PolarClosure a) /\
+  valid_s2rect s2_EmptyRect /\ valid_s2rect s2_FullRect.
+Proof.
+  intros a b ll Ha Hb.
+  exact (conj (s2rect_union_valid a b Ha Hb) (conj (s2rect_intersection_valid a b Ha Hb)
+        (conj (s2rect_addpoint_valid a ll Ha) (conj (s2rect_polar_closure_valid a Ha)
+        (conj s2rect_empty_valid s2rect_full_valid))))).
+Qed.
+Print Assumptions s2rect_results_valid.
